@@ -304,6 +304,16 @@ func (o *outer) expand(m *baseMeta) []item {
 			}
 			break
 		}
+		if o.Op == "trunc" {
+			// a plan file that is present but cut short (also to zero bytes) must make the
+			// latest-state restore fail as well: unlike a deleted newest file it is visible,
+			// so an older state is not a legitimate answer
+			for _, off := range []int64{0, 1, 50} {
+				it := mk()
+				it.File, it.Op, it.Off, it.Unpin = o.File, "trunc", off, true
+				its = append(its, it)
+			}
+		}
 		for i, off := range o.Offs {
 			it := mk()
 			it.File, it.Op, it.Off = o.File, o.Op, off
